@@ -313,7 +313,7 @@ def run_shard(spec, seed, tier):
         res.extra["lengths_bounds"] = "every message length 0..80 x key lengths {16,24,32} x %d keys" % (3 if tier == "quick" else 20)
         res.exhaustive = False
     else:
-        hyp.search(res, st_case(), simple.make_body(mod), seed, 400 if tier == "quick" else 6000)
+        hyp.search(res, st_case(), simple.make_body(mod), seed, 1500 if tier == "quick" else 20000)
     return res
 
 
